@@ -185,6 +185,48 @@ def check_pow_int_specials(run, ix, rule):
     run.sample(rule, 'mpf_pow_int: %d special (base, exponent) combinations' % n_ok)
 
 
+RANK = {'NINF': 0, 'N-': 1, 'Z': 2, 'N+': 3, 'PINF': 4}
+
+
+def check_order_tables(run, ix, rule):
+    """mpf_eq / lt / le / gt / ge on every pair of operand classes except two normal numbers of the same sign: nan is
+    unordered and unequal to everything including itself; -inf < negative < 0 < positive < +inf; equal specials are
+    equal."""
+    lookup = make_lookup(ix)
+    import operator
+    ops = {'mpf_eq': operator.eq, 'mpf_lt': operator.lt, 'mpf_le': operator.le, 'mpf_gt': operator.gt,
+           'mpf_ge': operator.ge}
+    for kern, op in sorted(ops.items()):
+        bad = []
+        n = 0
+        for s in KINDS:
+            for t in KINDS:
+                if s == t and s in ('N+', 'N-'):
+                    continue
+                want = False if 'NAN' in (s, t) else op(RANK[s], RANK[t])
+                a, b = mk(s, '_0'), mk(t, '_1')
+                got = outcomes(lookup, kern, [a, b], symclasses(a, b))
+                n += 1
+                vals = set()
+                for g in got:
+                    vals.add(g)
+                ok = vals == {'Int(%r)' % want}
+                if ok:
+                    run.ok(rule)
+                else:
+                    bad.append((s, t, sorted(vals), want))
+                    run.rule(rule)['sites'] += 1
+                    run.obligations += 1
+        if bad:
+            run.rule(rule)['failed'] += len(bad)
+            s_, t_, got, want = bad[0]
+            rel, f = owner(ix, kern)
+            run.findings.append(Finding(rule, rel, f.qualname, 'def %s (classes)' % kern,
+                                        '%s(%s, %s) gives %s, expected %r (%d of %d class pairs wrong)'
+                                        % (kern, s_, t_, got, want, len(bad), n), line=f.lineno))
+        run.sample(rule, '%s: %d class pairs' % (kern, n))
+
+
 def make_lookup(ix):
     def lookup(name):
         for rel in (LIBMPF, LIBELE):
